@@ -31,7 +31,7 @@ Theorem C15_suspended_foreign : forall w g fr,
   g_frame g = Some fr ->
   NoDup (chain_from w fr) -> hd_error (chain_from w fr) = Some fr ->
   ~ In fr (thread_frames w) ->
-  (w_parent_active w = true -> true_caller w <> None) ->
+  (has_parent w = true -> true_caller w <> None) ->
   unwrap_greenlet w g = GSlice (SFrames (rev (chain_from w fr))).
 Proof. exact suspended_foreign. Qed.
 Print Assumptions C15_suspended_foreign.
